@@ -1,6 +1,6 @@
 SPECIFICATION MSpec
 CONSTANTS
-  Vals = {1,2}
+  Vals = {1,2,3}
   Callers = {"owner","stranger"}
   Owner = "owner"
   HasImmutable = TRUE
